@@ -370,3 +370,150 @@ Proof.
   - split; [auto|]. intros [Hin|(_ & _ & He & Hn)]; [exact Hin|].
     destruct Hx; congruence.
 Qed.
+
+(* ------------------------------------------------------------------ *)
+(* Examples: the hypotheses of the theorems above are satisfiable on a concrete
+   reachable history (define, bind, repeated call, EndBlock issuing a batch,
+   response, expiry, pause/start, kill, update); everything by computation.
+   `Reach cfg s` stands for `Inv cfg s` (Reach -> Inv is the lead's theorem). *)
+
+Fixpoint wf_ops (cfg : Params) (s : State) (ops : list Op) : Prop :=
+  match ops with
+  | [] => True
+  | o :: t => wf_op s o /\ wf_ops cfg (fst (step cfg s o)) t
+  end.
+
+Lemma Reach_run cfg s ops : Reach cfg s -> wf_ops cfg s ops -> Reach cfg (run cfg s ops).
+Proof.
+  revert s. induction ops as [|o t IH]; intros s Hr Hw; [exact Hr|].
+  destruct Hw as [Ho Ht]. apply (IH (fst (step cfg s o))); [now constructor|exact Ht].
+Qed.
+
+Module Ex.
+  Definition cfg0 : Params := mkParams 100 2 10 0 0 0 0 99 77.
+  Definition c0 : CtxId := (1, 0).
+  Definition s_init : State := init 1 0 [(2, 1000); (7, 1000)].
+  Definition ops_run : list Op :=
+    [ODefine 5 1 true; OBind 5 10 (CBase 100) (Some (mkRaw 10 [] [])) 5 7 true;
+     OCall c0 5 [10] 2 0 (CBase 50) 5 false true 10 3 true true].
+  Definition ops_b : list Op := ops_run ++ [OEndBlock 1].
+  Definition ops_e : list Op := ops_b ++ [OEndBlock 1; OEndBlock 1; OEndBlock 1; OEndBlock 1].
+  Definition ops_pi : list Op := ops_run ++ [OPause c0 2 true; OEndBlock 1].
+  Definition ops_k : list Op := ops_b ++ [OKill c0 2 true].
+  (* height 1: repeated context running, new-batch entry due *)
+  Definition s_run : State := run cfg0 s_init ops_run.
+  (* height 2: batch 1 in flight (one request, expiry entry at 6) *)
+  Definition s_b : State := run cfg0 s_init ops_b.
+  (* height 6: the expiry entry is due *)
+  Definition s_e : State := run cfg0 s_init ops_e.
+  (* height 2: paused, no entry in either queue *)
+  Definition s_pi : State := run cfg0 s_init ops_pi.
+  (* height 2: killed (completed) with batch 1 in flight *)
+  Definition s_k : State := run cfg0 s_init ops_k.
+
+  Ltac comp := vm_compute; repeat split; try reflexivity; try discriminate;
+               try (intuition discriminate).
+
+  Example wf_cfg0 : wf_cfg cfg0.
+  Proof. comp. Qed.
+
+  Lemma reach_init : Reach cfg0 s_init.
+  Proof. apply Reach_init; [lia|lia|]. intros a v [E|[E|[]]]; injection E as <- <-; lia. Qed.
+
+  Example reach_run : Reach cfg0 s_run.
+  Proof. apply Reach_run; [exact reach_init|comp]. Qed.
+  Example reach_b : Reach cfg0 s_b.
+  Proof. apply Reach_run; [exact reach_init|comp]. Qed.
+  Example reach_e : Reach cfg0 s_e.
+  Proof. apply Reach_run; [exact reach_init|comp]. Qed.
+  Example reach_pi : Reach cfg0 s_pi.
+  Proof. apply Reach_run; [exact reach_init|comp]. Qed.
+  Example reach_k : Reach cfg0 s_k.
+  Proof. apply Reach_run; [exact reach_init|comp]. Qed.
+
+  (* hypotheses of msg_ctx_change / C09_static_msg / C09_transition_msg / C10_counter_msg
+     for an operation that really changes the record of c *)
+  Definition msg_hyps (s : State) (o : Op) (c : CtxId) : Prop :=
+    wf_cfg cfg0 /\ Reach cfg0 s /\ wf_op s o /\ (forall dt, o <> OEndBlock dt)
+    /\ exists s' rc rc', handle cfg0 s o = Ok s' /\ get c (ctxs s) = Some rc
+         /\ get c (ctxs s') = Some rc' /\ rc' <> rc.
+
+  Ltac msg_ex Hreach :=
+    split; [exact wf_cfg0|]; split; [exact Hreach|]; split; [comp|];
+    split; [intros; discriminate|];
+    eexists; eexists; eexists;
+    split; [vm_compute; reflexivity|]; split; [vm_compute; reflexivity|];
+    split; [vm_compute; reflexivity|discriminate].
+
+  Example C09_transition_msg_ex_pause : msg_hyps s_run (OPause c0 2 true) c0.
+  Proof. msg_ex reach_run. Qed.
+  Example C09_transition_msg_ex_start : msg_hyps s_pi (OStart c0 2 true) c0.
+  Proof. msg_ex reach_pi. Qed.
+  Example C09_transition_msg_ex_kill : msg_hyps s_b (OKill c0 2 true) c0.
+  Proof. msg_ex reach_b. Qed.
+  Example C09_transition_msg_ex_update :
+    msg_hyps s_b (OUpdateCtx c0 2 [] (CBase 60) 0 20 5 true) c0.
+  Proof. msg_ex reach_b. Qed.
+  Example C09_transition_msg_ex_respond :
+    msg_hyps s_b (ORespond (c0, 1, 1, 0) 10 200 1 true true) c0.
+  Proof. msg_ex reach_b. Qed.
+
+  (* C09_completed_final_msg: a killed context with a batch in flight is answered *)
+  Example C09_completed_final_msg_ex :
+    let o := ORespond (c0, 1, 1, 0) 10 200 1 true true in
+    wf_cfg cfg0 /\ Reach cfg0 s_k /\ wf_op s_k o /\ (forall dt, o <> OEndBlock dt)
+    /\ exists s' rc rc', handle cfg0 s_k o = Ok s' /\ get c0 (ctxs s_k) = Some rc
+         /\ get c0 (ctxs s') = Some rc' /\ c_state rc = Completed /\ rc' <> rc.
+  Proof.
+    split; [exact wf_cfg0|]. split; [exact reach_k|]. split; [comp|].
+    split; [intros; discriminate|]. eexists; eexists; eexists.
+    split; [vm_compute; reflexivity|]. split; [vm_compute; reflexivity|].
+    split; [vm_compute; reflexivity|]. split; [reflexivity|discriminate].
+  Qed.
+
+  (* hypotheses of the expire_one theorems (I_X_expire_one, fold support,
+     C09_static_expire_one, C10_counter_expire_one): the context is requeued *)
+  Example expire_one_hyps_ex :
+    wf_cfg cfg0 /\ Reach cfg0 s_e /\ In (height s_e, c0) (expq s_e) /\ height s_e < HEIGHT_BOUND
+    /\ exists rc rc', get c0 (ctxs s_e) = Some rc
+         /\ get c0 (ctxs (expire_one cfg0 s_e c0)) = Some rc'
+         /\ newq (expire_one cfg0 s_e c0) = [(11, c0)] /\ expq (expire_one cfg0 s_e c0) = [].
+  Proof.
+    split; [exact wf_cfg0|]. split; [exact reach_e|]. split; [vm_compute; auto|].
+    split; [reflexivity|]. eexists; eexists.
+    split; [vm_compute; reflexivity|]. split; [vm_compute; reflexivity|].
+    split; vm_compute; reflexivity.
+  Qed.
+
+  (* hypotheses of the new_one theorems (I_X_new_one, fold support, C09_static_new_one,
+     C10_total_bound_new_one, C10_no_overlap): the counter really grows *)
+  Example new_one_hyps_ex :
+    wf_cfg cfg0 /\ Reach cfg0 s_run /\ In (height s_run, c0) (newq s_run)
+    /\ height s_run < HEIGHT_BOUND
+    /\ exists rc rc', get c0 (ctxs s_run) = Some rc
+         /\ get c0 (ctxs (new_one cfg0 s_run c0)) = Some rc'
+         /\ c_counter rc' <> c_counter rc
+         /\ expq (new_one cfg0 s_run c0) = [(6, c0)] /\ newq (new_one cfg0 s_run c0) = [].
+  Proof.
+    split; [exact wf_cfg0|]. split; [exact reach_run|]. split; [vm_compute; auto|].
+    split; [reflexivity|]. eexists; eexists.
+    split; [vm_compute; reflexivity|]. split; [vm_compute; reflexivity|].
+    split; [vm_compute; discriminate|]. split; vm_compute; reflexivity.
+  Qed.
+
+  (* C11_pause_start_spec: both branches occur *)
+  Example C11_pause_start_spec_ex_idle :
+    exists s', h_start s_pi c0 2 true = Ok s'
+      /\ has c0 (expq_h s_pi) = false /\ has c0 (newq_h s_pi) = false
+      /\ newq s' = [(height s_pi, c0)].
+  Proof. eexists. split; [vm_compute; reflexivity|]. repeat split. Qed.
+
+  Example C11_pause_start_spec_ex_pending :
+    let s := run cfg0 s_b [OPause c0 2 true] in
+    exists s', h_start s c0 2 true = Ok s'
+      /\ has c0 (expq_h s) = true /\ newq s' = newq s /\ expq s' = expq s.
+  Proof. eexists. split; [vm_compute; reflexivity|]. repeat split. Qed.
+
+  Example C11_pause_spec_ex : exists s', h_pause s_run c0 2 true = Ok s'.
+  Proof. eexists. vm_compute. reflexivity. Qed.
+End Ex.
